@@ -39,8 +39,9 @@ class C14Entered(Harness):
                         if post in ("div", "idiv") and (way != "h1" or (wk == "real" and N > 1)):
                             continue
                         yield f"st-N{N}-{way}-w{wk}-{post}", dict(N=N, way=way, weights=wk, post=post, M=2)
-        # scaling by numpy scalars (np.int64, np.float32 - e.g. the sum of another histogram's contents) keeps the statistics like a python factor does
-        for post in ("scale_npi64", "scale_npf32", "iscale_npi64"):
+        # scaling by numpy scalars (np.int64, np.float64 - e.g. the sum of another histogram's contents) keeps the statistics like a python factor does
+        # (np.float32 factors are left out: python-float statistics times a float32 scalar are rounded to binary32, which R-mode does not model)
+        for post in ("scale_npi64", "scale_npf64", "iscale_npi64"):
             for wk in ("none", "real"):
                 yield f"st-N2-h1-w{wk}-{post}", dict(N=2, way="h1", weights=wk, post=post, M=2)
         # histograms that do not track missed values (keep_missed=False): statistics are maintained all the same
@@ -69,8 +70,8 @@ class C14Entered(Harness):
                 cx.assume(x["c"] > 0)
         if p["post"].endswith("npi64"):
             x["c"] = cx.pyint("c", 1, 4)
-        if p["post"].endswith("npf32"):
-            x["c4"] = cx.pyint("c4", 1, 12)      # the factor c4 / 4 is exact in binary32
+        if p["post"].endswith("npf64"):
+            x["c4"] = cx.pyint("c4", 1, 12)      # the factor c4 / 4
         if cx.sym:
             cx.assume(*[z3.And(cx.t(v) >= cx.t(x["e"][0]), cx.t(v) <= cx.t(x["e"][-1])) for v in x["v"]])
         return x
@@ -134,8 +135,8 @@ class C14Entered(Harness):
             h = h * np.int64(x["c"])
         elif p["post"] == "iscale_npi64":
             h *= np.int64(x["c"])
-        elif p["post"] == "scale_npf32":
-            h = h * np.float32(x["c4"] / 4.0)
+        elif p["post"] == "scale_npf64":
+            h = h * np.float64(x["c4"] / 4.0)
         elif p["post"] == "div":
             h = h / x["c"]
         elif p["post"] == "idiv":
@@ -150,7 +151,7 @@ class C14Entered(Harness):
         v = [cx.t(i) for i in x["v"]]
         w = [cx.t(i) for i in x["w"]] if "w" in x else [z3.IntVal(1)] * N
         c = cx.t(x["c"]) if p["post"] in ("scale", "scale_npi64", "iscale_npi64") else (1 / cx.t(x["c"]) if p["post"] in ("div", "idiv") else z3.RealVal(1))
-        if p["post"] == "scale_npf32":
+        if p["post"] == "scale_npf64":
             c = z3.ToReal(cx.t(x["c4"])) / 4
         st = obs["st"]
         S, S2, W = zsum(w[i] * v[i] for i in range(N)), zsum(w[i] * v[i] * v[i] for i in range(N)), zsum(w)
